@@ -132,60 +132,26 @@ theorem finishCells_ok (hg : GW g) (s : Settings) (rn : Option (Array Nat)) {st 
 /-! ## `sort_terminals` -/
 
 theorem termDescs_ok (hg : GW g) : ∀ (ts : List Nat), (∀ t ∈ ts, t < g.nterms) →
-    ∃ descs, termDescs g ts = some descs ∧
-      ∀ d ∈ descs, ∀ ms, Lex.key ms d < 4294967296
-  | [], _ => ⟨[], rfl, by simp⟩
+    ∃ descs, termDescs g ts = some descs
+  | [], _ => ⟨[], rfl⟩
   | t :: rest, h => by
     have ht := h t List.mem_cons_self
     have hlt : t < g.terms.size := by rw [hg.terms_size]; exact ht
-    obtain ⟨r, h1, h2⟩ := termDescs_ok hg rest (fun x hx => h x (List.mem_cons_of_mem _ hx))
+    obtain ⟨r, h1⟩ := termDescs_ok hg rest (fun x hx => h x (List.mem_cons_of_mem _ hx))
     have hget : g.terms[t]? = some g.terms[t] := Array.getElem?_eq_getElem hlt
-    have hok := hg.terms_ok g.terms[t] (by simp)
     unfold termDescs termDesc
     rw [hget, h1]
-    refine ⟨_, rfl, ?_⟩
-    intro d hd ms
-    rcases List.mem_cons.mp hd with h' | h'
-    · subst h'
-      unfold termOk at hok
-      simp only [decide_eq_true_eq] at hok
-      unfold Lex.key
-      simp only
-      cases hr : g.terms[t].recog with
-      | none =>
-        simp only [hr] at hok ⊢
-        split <;> (try simp only [Option.getD_none]) <;> omega
-      | some rc =>
-        cases rc with
-        | str str =>
-          simp only [hr] at hok ⊢
-          generalize str.utf8ByteSize = n at hok ⊢
-          generalize g.terms[t].prio = p at hok ⊢
-          cases ms
-          · simp only [Bool.false_eq_true, if_false]
-            exact Nat.lt_of_le_of_lt (Nat.add_le_add_left (Nat.zero_le n) _) hok
-          · simp only [if_true, Option.getD_some]
-            exact hok
-        | regex re =>
-          simp only [hr] at hok ⊢
-          split <;> (try simp only [Option.getD_none]) <;> omega
-    · exact h2 d h' ms
+    exact ⟨_, rfl⟩
 
+/-- `sort_terminals` has no panic site besides `terminals[term]`: the sort key is a pair, compared
+    lexicographically, there is no arithmetic on the priority -/
 theorem sortedOf_ok (hg : GW g) (s : Settings) {cells : List (List Action)} (hlen : cells.length = g.nterms) :
     ∃ r, sortedOf g s cells = .ok r := by
   unfold sortedOf
-  obtain ⟨descs, h1, h2⟩ := termDescs_ok hg ((List.range cells.length).filter fun t => !(cells.getD t []).isEmpty)
+  obtain ⟨descs, h1⟩ := termDescs_ok hg ((List.range cells.length).filter fun t => !(cells.getD t []).isEmpty)
     (fun t ht => by rw [← hlen]; exact List.mem_range.mp (List.mem_filter.mp ht).1)
   simp only [h1]
-  have : descs.any (fun d => decide (4294967296 ≤ Lex.key s.mostSpecific d)) = false := by
-    apply Bool.eq_false_iff.mpr
-    intro hc
-    obtain ⟨d, hd, hk⟩ := List.any_eq_true.mp hc
-    simp only [decide_eq_true_eq] at hk
-    have := h2 d hd s.mostSpecific
-    omega
-  rw [this]
-  simp
+  exact ⟨_, rfl⟩
 
 theorem finishCells_length {s : Settings} {rn : Option (Array Nat)} {st : State} :
     ∀ {ts : List Nat} {cells : List (List Action)}, finishCells g s rn st ts = .ok cells → cells.length = ts.length :=
